@@ -107,6 +107,10 @@ func c09Run(r *Run, burnPaused, sendPaused bool, attCfg string) {
 		{"replacement of own deposit", repl2, Attest(repl2, signers)},
 		{"truncated own message (115 bytes)", ownMsg[:115], Attest(ownMsg[:115], signers)},
 		{"own message claiming version 1", ownV1, Attest(ownV1, signers)},
+		// over-long attestations: the two honest signatures followed by something else
+		{"own user message, attestation followed by 65 zero bytes", ownMsg, append(Attest(ownMsg, signers), make([]byte, 65)...)},
+		{"own user message, attestation followed by a third honest signature of a non-attester", ownMsg, append(Attest(ownMsg, signers), Keys[5].SignRSV(ownMsg)...)},
+		{"own deposit, attestation followed by 65 zero bytes", ownDep, append(Attest(ownDep, signers), make([]byte, 65)...)},
 	}
 	var disabled []string
 	switch attCfg {
